@@ -170,11 +170,23 @@ func (c *Collector) Write(path string, cov map[string]any) error {
 
 // ChildMain is the main() of an unscaled child binary: flags -tier -budget -out, then body.
 func ChildMain(body func(s Sink) map[string]any) {
+	for _, a := range os.Args[1:] {
+		if a == "-dump" {
+			DumpPrefills()
+			return
+		}
+	}
 	tier := flag.String("tier", "quick", "")
 	budget := flag.Duration("budget", 60*time.Second, "")
 	out := flag.String("out", "", "")
 	flag.Parse()
 	c := NewCollector(*tier, *budget)
+	if p := os.Getenv("VERIF_PPROF_CHILD"); p != "" { // developer aid
+		os.Setenv("VERIF_PPROF", p)
+		defer StartProfile()()
+	} else {
+		os.Unsetenv("VERIF_PPROF")
+	}
 	cov := body(c)
 	if err := c.Write(*out, cov); err != nil {
 		fmt.Println("HARNESS-ERROR: child cannot write result:", err)
